@@ -14,6 +14,8 @@ cross-checked against specs.core at start-up) over ALL permutations up to a boun
   C18.add_pair         add_increase / add_decrease
   C18.region           is_shaded, is_pointfree, shade, non_pointless_boxes,
                        has_anchored_point vs their definitions
+  C18.history          verdicts of derived patterns (shade, symmetries, add_point) after earlier
+                       queries on the original == verdicts of fresh equal patterns
   C18.ascii            parse(ascii_plot(cell_size)) == (pattern, shading)
   C18.ascii_perm       the same for Perm.ascii_plot
 """
@@ -301,6 +303,62 @@ def _len3_sample(rng, count):
     return out
 
 
+def _verdicts(m):
+    """every shading verdict of one object: one-cell, adjacent two-cell (both orders), the table"""
+    n = len(m)
+    out = {}
+    for c in _cells(n):
+        out[("can_shade", c)] = list(m.can_shade(c))
+    for c1, c2 in _adjacent_pairs(n):
+        out[("can_simul_shade", c1, c2)] = list(m.can_simul_shade(c1, c2))
+    out["shadable_boxes"] = {v: sorted(e) for v, e in m.shadable_boxes().items() if e}
+    return out
+
+
+@check("C18.history")
+def history(m):
+    """Verdicts depend on the VALUE of the pattern only: after every verdict has been asked on m (whatever the object
+    remembers is now warm), each pattern DERIVED from m (shade one / two cells, the eight symmetries, add_point) must
+    answer exactly like a freshly constructed equal pattern, must be equal to it, and m itself must answer again as it
+    did.  (The fresh answers themselves are checked by C18.can_shade / can_simul_shade / shadable_boxes.)"""
+    from permuta import MeshPatt, Perm
+
+    n = len(m)
+    first = _verdicts(m)
+    derived = []
+    cells = _cells(n)
+    for c in cells:
+        derived.append((f"shade({c})", m.shade(c)))
+    for c1, c2 in list(_adjacent_pairs(n))[:8]:
+        derived.append((f"shade({c1}, {c2})", m.shade(c1, c2)))
+    derived.append(("shade() of nothing", m.shade()))
+    for name in ("reverse", "complement", "inverse"):
+        derived.append((name, getattr(m, name)()))
+    for k in (1, 2, 3):
+        derived.append((f"rotate({k})", m.rotate(k)))
+    if n <= 2:
+        for c in cells:
+            if c not in m.shading:
+                derived.append((f"add_point({c})", m.add_point(c)))
+    nt = False
+    for what, d in derived:
+        fresh = MeshPatt(Perm(tuple(d.pattern)), sorted(d.shading))
+        if not (d == fresh and hash(d) == hash(fresh)):
+            return bad(fresh, d, f"{what}: the derived pattern differs from a fresh pattern with the same fields")
+        got, want = _verdicts(d), _verdicts(fresh)
+        if got != want:
+            key = next(k for k in want if got.get(k) != want[k])
+            return bad(want[key], got.get(key), f"after all verdicts were asked on the original, {what} answers {key} differently from a fresh equal pattern")
+        nt = nt or any(v for k, v in want.items())
+    again = _verdicts(m)
+    if again != first:
+        key = next(k for k in first if again.get(k) != first[k])
+        return bad(first[key], again.get(key), f"the original pattern answers {key} differently after patterns were derived from it")
+    if S.to_spec(m) != S.to_spec(MeshPatt(Perm(tuple(m.pattern)), sorted(m.shading))):
+        return bad("unchanged", m, "fields changed")
+    return ok(nt)
+
+
 def run(ctx):
     quick = ctx.tier == "quick"
     _TIER[0] = ctx.tier
@@ -342,6 +400,9 @@ def run(ctx):
     # ------------------------------------------------------------------ the table
     ctx.run("C18.shadable_boxes", small + three_all[: 150 if quick else 2500], chunk=40,
             rule="all mesh patterns <= 2 and seeded length 3; non-trivial = table not empty")
+    ctx.run("C18.history", small[:: 3 if quick else 1] + three_all[: 40 if quick else 600], chunk=20,
+            rule="mesh patterns <= 2 (every third in the quick tier) and seeded length 3: all verdicts on the object, then every derived "
+                 "pattern (shade 1/2 cells, 8 symmetries, add_point) vs a fresh equal pattern; non-trivial = some licence granted")
     # ------------------------------------------------------------------ point insertion
     dirs = list(_dirs())
     three_ap = three[: 60 if quick else 600]
